@@ -280,6 +280,67 @@ class FX:
         self._events[fn.key] = evs
         return evs
 
+    # ---- events with private helper functions inlined ------------------------------------------------
+    def known_functions(self):
+        if not hasattr(FX, "_known"):
+            import json as _json, os as _os
+            p = _os.path.join(_os.path.dirname(_os.path.dirname(_os.path.abspath(__file__))), "rules", "known_functions.json")
+            try:
+                FX._known = set(_json.load(open(p)))
+            except OSError:
+                FX._known = set()
+        return FX._known
+
+    def inlinable(self, key, stack=()):
+        """a NEW private function (not in the reviewed inventory) that writes tables / the map and whose every such
+        event is executed on every path through it: its events are analysed as part of each caller"""
+        if key in stack or key in self.known_functions():
+            return False
+        f = self.prog.fn(key)
+        if f is None or f.is_closure or f.exported or not f.body or len(f.blocks) > 40 or f.cfg.loops:
+            return False
+        evs = self.events(f)
+        interesting = [e for e in evs if e["kind"] in ("tw", "mw", "mwraw", "cap")]
+        if not interesting:
+            return False
+        for e in interesting:
+            if e["bb"] != 0 and f.cfg.escape_path(0, {e["bb"]}) is not None:
+                return False
+        return True
+
+    def events_inl(self, fn, stack=()):
+        """events of fn with the events of inlinable private helpers spliced in at their call sites (parameters substituted)"""
+        from .core import subst_params
+        out = []
+        for ev in self.events(fn):
+            if ev["kind"] == "call" and self.inlinable(ev["callee"], stack + (fn.key,)):
+                callee = self.prog.fn(ev["callee"])
+                args = tuple(self.args_vp(ev["ci"]))
+                for e2 in self.events_inl(callee, stack + (fn.key,)):
+                    if e2["kind"] in ("ret", "view"):
+                        continue
+                    e3 = dict(e2)
+                    e3["bb"] = ev["bb"]
+                    e3["si"] = "term"
+                    e3["inlined_from"] = callee.key
+                    e3["span"] = ev["span"]
+                    for k in ("root", "idx", "val"):
+                        if e3.get(k) is not None:
+                            e3[k] = subst_params(e3[k], callee.key, args)
+                    if "ci" in e2 and "args_sub" not in e2:
+                        e3["args_sub"] = [subst_params(a, callee.key, args) for a in self.args_vp(e2["ci"])]
+                    elif "args_sub" in e2:
+                        e3["args_sub"] = [subst_params(a, callee.key, args) for a in e2["args_sub"]]
+                    out.append(e3)
+                ev = dict(ev)
+                ev["inlined"] = True
+            out.append(ev)
+        return out
+
+    def inlined_everywhere(self, key):
+        """is `key` a helper analysed only through its callers?"""
+        return self.inlinable(key)
+
     # ---- effects (least fixed point over the call graph incl. closures passed to combinators) ----
     @property
     def effects(self):
